@@ -53,8 +53,12 @@ def parse_doc(content, ctx, return_defaults=False, return_booleans=True):
         defaults = cfg["DEFAULT"]
         not_defaults = cfg[~eq("DEFAULT")]
         for c in not_defaults:
+            # inherit every default the section does not define itself; a
+            # default given twice is inherited twice so that the later one wins
+            # as it does inside the DEFAULT section
+            own = set(d.name for d in c.children)
             for d in defaults.grandchildren:
-                if d.name not in c:
+                if d.name not in own:
                     c.children.append(d)
 
         if not include_defaults:
